@@ -26,7 +26,7 @@ def main():
             open(path, "w").write(src.replace(c["old"], c["new"]))
             t = time.time()
             cmd = [os.path.join(VERIF, "check"), tier, c["property"]] + ([c["harness"]] if c.get("harness") else [])
-            p = subprocess.run(cmd, capture_output=True, text=True, env=dict(os.environ, VERIF_QUIET="1"))
+            p = subprocess.run(cmd, capture_output=True, text=True, env=dict(os.environ, VERIF_QUIET="1", VERIF_EVIDENCE_DIR=os.path.join("/verif", ".work", "evidence")))
             dt = time.time() - t
         finally:
             subprocess.run(["git", "-C", "/repo", "checkout", "--", "."], check=True)
